@@ -6,8 +6,9 @@
 From Oras Require Import Base.Prelude Generated.GC16 Model.OnceSlot.
 
 Section Program.
-Variables taken closed : list (list oact).
+Variables taken closed panics : list (list oact).
 Hypothesis taken_release : forall p, In p taken -> releases p = true.
+Hypothesis panic_release : forall p, In p panics -> releases p = true.
 
 Definition holder_ok (st : sstate) : Prop :=
   forall g, s_slot st = STaken g ->
@@ -19,10 +20,10 @@ Proof. reflexivity. Qed.
 Lemma holder_ok_init : holder_ok sinit.
 Proof. intros g H. discriminate. Qed.
 
-Lemma holder_ok_step st e st' : holder_ok st -> sstep taken closed st e = Some st' -> holder_ok st'.
+Lemma holder_ok_step st e st' : holder_ok st -> sstep taken closed panics st e = Some st' -> holder_ok st'.
 Proof.
   intros I S. destruct st as [sl pcs]. unfold holder_ok in *. simpl in *.
-  destruct e as [g0|g0 i|g0 i|g0|g0]; simpl in S.
+  destruct e as [g0|g0 i|g0 i|g0|g0|g0 i]; simpl in S.
   - destruct (pc_get pcs g0) eqn:P0; try discriminate. injection S as <-. cbn [s_slot s_pcs].
     intros g Hs. destruct (I g Hs) as (rest & Pg & R). exists rest. split; auto.
     rewrite pc_get_set. destruct (g =? g0) eqn:E; auto. apply N.eqb_eq in E. subst. congruence.
@@ -55,28 +56,33 @@ Proof.
       apply N.eqb_eq in E. subst. rewrite P0 in Pg. injection Pg as <-. discriminate.
     + (* ANext *) injection S as <-. cbn [s_slot s_pcs]. intros g Hs. destruct (I g Hs) as (rest & Pg & R).
       rewrite pc_get_set. destruct (g =? g0) eqn:E; [|eauto].
-      apply N.eqb_eq in E. subst. rewrite P0 in Pg. injection Pg as <-. discriminate.
+      apply N.eqb_eq in E. subst. rewrite P0 in Pg. injection Pg as <-. discriminate.  - (* SPanicF: the deferred recover path takes over *)
+    destruct (pc_get pcs g0) as [| |[|[| | | | |] rest0]|] eqn:P0; try discriminate.
+    destruct (nth_error panics i) as [p|] eqn:Ni; try discriminate. injection S as <-. cbn [s_slot s_pcs].
+    intros g Hs. destruct (I g Hs) as (rest & Pg & R).
+    rewrite pc_get_set. destruct (g =? g0) eqn:E; [|eauto].
+    exists p. split; auto. apply panic_release. eapply nth_error_In; eauto.
 Qed.
 
-Lemma holder_ok_run tr : forall st st', holder_ok st -> srun taken closed st tr = Some st' -> holder_ok st'.
+Lemma holder_ok_run tr : forall st st', holder_ok st -> srun taken closed panics st tr = Some st' -> holder_ok st'.
 Proof.
   induction tr as [|e tr IH]; intros st st' I R; simpl in R.
   - now injection R as <-.
-  - destruct (sstep taken closed st e) as [st1|] eqn:S; [|discriminate].
+  - destruct (sstep taken closed panics st e) as [st1|] eqn:S; [|discriminate].
     eapply IH; [eapply holder_ok_step; eauto | eauto].
 Qed.
 
 (* every reachable state: a taken slot is owned by a caller inside Do whose
    remaining path releases it *)
 Lemma slot_owned tr st g :
-  srun taken closed sinit tr = Some st -> s_slot st = STaken g ->
+  srun taken closed panics sinit tr = Some st -> s_slot st = STaken g ->
   exists rest, pc_get (s_pcs st) g = PIn rest /\ releases rest = true.
 Proof. intros R. exact (holder_ok_run tr sinit st holder_ok_init R g). Qed.
 
 (* quiescent points: when no caller is in the middle of Do, the slot is free or a
    result is published *)
 Lemma quiescent_slot_free tr st :
-  srun taken closed sinit tr = Some st ->
+  srun taken closed panics sinit tr = Some st ->
   (forall g rest, pc_get (s_pcs st) g <> PIn rest) ->
   s_slot st = SFree \/ s_slot st = SClosed.
 Proof.
@@ -88,7 +94,7 @@ Qed.
 Lemma owner_releases : forall rest st g,
   s_slot st = STaken g -> pc_get (s_pcs st) g = PIn rest -> releases rest = true ->
   exists n st', (n <= length rest)%nat /\
-    srun taken closed st (repeat (SAct g) n) = Some st' /\
+    srun taken closed panics st (repeat (SAct g) n) = Some st' /\
     (s_slot st' = SFree \/ s_slot st' = SClosed).
 Proof.
   induction rest as [|a rest IH]; intros st g Hs Hp Hr; [discriminate|].
@@ -109,8 +115,8 @@ Proof.
 Qed.
 
 Lemma never_wedged tr st g :
-  srun taken closed sinit tr = Some st -> s_slot st = STaken g ->
-  exists n st', srun taken closed st (repeat (SAct g) n) = Some st' /\
+  srun taken closed panics sinit tr = Some st -> s_slot st = STaken g ->
+  exists n st', srun taken closed panics st (repeat (SAct g) n) = Some st' /\
     (s_slot st' = SFree \/ s_slot st' = SClosed).
 Proof.
   intros R Hs. destruct (slot_owned tr st g R Hs) as (rest & P & Rl).
@@ -121,19 +127,33 @@ End Program.
 (* ---------- the program generated from once.go ---------- *)
 Lemma generated_paths_ok :
   forallb releases paths_taken = true /\ forallb untouched paths_closed = true /\
+  forallb releases paths_panic = true /\ negb (Nat.eqb (length paths_panic) 0) = true /\
   negb (Nat.eqb (length paths_taken) 0) = true /\ negb (Nat.eqb (length paths_closed) 0) = true.
-Proof. vm_compute. auto. Qed.
+Proof. vm_compute. repeat split; reflexivity. Qed.
 
 Lemma generated_taken_release p : In p paths_taken -> releases p = true.
 Proof. intro H. exact (proj1 (forallb_forall _ _) (proj1 generated_paths_ok) p H). Qed.
+
+Lemma generated_panic_release p : In p paths_panic -> releases p = true.
+Proof. intro H. exact (proj1 (forallb_forall _ _) (proj1 (proj2 (proj2 generated_paths_ok))) p H). Qed.
 
 (* a program with a return path that keeps the slot (the caller checks its context
    after the receive and leaves) loses the slot at a quiescent point *)
 Lemma leaky_program_wedges :
   let taken := [ARet] :: paths_taken in
-  exists tr st, srun taken paths_closed sinit tr = Some st /\
+  exists tr st, srun taken paths_closed paths_panic sinit tr = Some st /\
     (forall g rest, pc_get (s_pcs st) g <> PIn rest) /\ s_slot st = STaken 1.
 Proof.
   exists [SEnter 1; STake 1 0; SAct 1]. eexists. split; [vm_compute; reflexivity|].
+  split; [|reflexivity]. intros g rest. simpl. destruct (g =? 1); discriminate.
+Qed.
+
+(* a program whose deferred function does not hand the slot back loses it when the
+   function argument panics *)
+Lemma panic_without_handback_wedges :
+  exists tr st, srun paths_taken paths_closed [[ARet]] sinit tr = Some st /\
+    (forall g rest, pc_get (s_pcs st) g <> PIn rest) /\ s_slot st = STaken 1.
+Proof.
+  exists [SEnter 1; STake 1 0; SPanicF 1 0; SAct 1]. eexists. split; [vm_compute; reflexivity|].
   split; [|reflexivity]. intros g rest. simpl. destruct (g =? 1); discriminate.
 Qed.
